@@ -33,6 +33,24 @@ def time_is(o, total):
     return And(ref_valid_time(*t), nanos_of_day(*t) == total)
 
 
+I64_MIN, I64_MAX = -(1 << 63), (1 << 63) - 1
+
+
+def role_f2(k, sign=1):
+    """F2 role: some 64-bit product or partial sum of the unit-by-unit accumulation overflows"""
+    def role(a):
+        s = sgn(a[k]) * sign
+        terms = [s * a[k + 1] * HOUR_NS, s * a[k + 2] * MIN_NS, s * a[k + 3] * NS, s * a[k + 4] * 1000000, s * a[k + 5] * 1000, s * a[k + 6]]
+        conds = []
+        acc = tod(a)
+        for t in terms:
+            conds.append(Not(in_range(t, I64_MIN, I64_MAX)))
+            acc = acc + t
+            conds.append(Not(in_range(acc, I64_MIN, I64_MAX)))
+        return Or(conds)
+    return role
+
+
 B_TIME = {0: (0, 23), 1: (0, 59), 2: (0, 59), 3: (0, 999999999)}
 B_SPAN_T = {5: (0, LIM["hours"]), 6: (0, LIM["minutes"]), 7: (0, LIM["seconds"]), 8: (0, LIM["milliseconds"]),
             9: (0, LIM["microseconds"]), 10: (0, LIM["nanoseconds"])}
@@ -82,7 +100,7 @@ KERNELS = [
     K("c08::k_time_wrapping_sub_span", pre=lambda a: And(time_ok(a), span_time_ok(a, 4)),
       claims=[("Time::wrapping_sub(Span) == (t - sum of units) mod 24h exactly",
                lambda a, o: And(o.is_some, time_is(o.some, (tod(a) - span_time_total(a, 4)) % DAY_NS)))],
-      bounds=B_TS),
+      bounds=B_TS, known=[("F2", role_f2(4, -1))]),
     K("c08::k_time_checked_add_span", pre=lambda a: And(time_ok(a), span_time_ok(a, 4)),
       claims=[("Time::checked_add(Span) fails exactly when the result leaves the day",
                lambda a, o: And(o.is_some, opt_is(o.some, in_range(tod(a) + span_time_total(a, 4), 0, DAY_NS - 1),
@@ -109,11 +127,21 @@ KERNELS = [
                lambda a, o: And(o.is_some, time_is(o.some[0], (tod(a) + a[4] * NS + a[5]) % DAY_NS),
                                 time_is(o.some[1], (tod(a) - a[4] * NS - a[5]) % DAY_NS)))],
       bounds={**B_TIME, 5: (0, 999999999)}),
+    K("c08::k_date_add_ym", pre=lambda a: And(date_ok(a), in_range(a[4], 0, LIM["years"]), in_range(a[5], 0, LIM["months"])),
+      claims=[("Date::checked_add(years, months): month arithmetic with the day clamped to the target month; Err iff year out of range",
+               lambda a, o: And(o.is_some, opt_is(o.some, in_range(ref_add_months(a[0], a[1], a[2], sgn(a[3]) * a[4], sgn(a[3]) * a[5])[0], -9999, 9999),
+                                                  lambda r: eq3(r.ints(), ref_add_months(a[0], a[1], a[2], sgn(a[3]) * a[4], sgn(a[3]) * a[5])))))],
+      bounds={**B_DATE, 4: (0, LIM["years"]), 5: (0, LIM["months"])}),
+    K("c08::k_date_add_wd", pre=lambda a: And(date_ok(a), in_range(a[4], 0, LIM["weeks"]), in_range(a[5], 0, LIM["days"])),
+      claims=[("Date::checked_add(weeks, days) == epoch day + 7w + d; Err iff outside -9999-01-01..=9999-12-31",
+               lambda a, o: And(o.is_some, opt_is(o.some[0], in_range(o.some[1].i + sgn(a[3]) * (7 * a[4] + a[5]), MIN_DAY, MAX_DAY),
+                                                  lambda r: And(ref_valid_date(*r[0].ints()), r[1].i == o.some[1].i + sgn(a[3]) * (7 * a[4] + a[5])))))],
+      bounds={**B_DATE, 4: (0, LIM["weeks"]), 5: (0, LIM["days"])}),
     K("c08::k_date_add_cal", pre=lambda a: And(date_ok(a), cal_ok(a, 3)),
       claims=[("Date::checked_add(years, months, weeks, days): months first with day clamp, then days on epoch days; Err iff out of range",
                date_add_cal_claim(1))],
-      bounds=B_CAL, split=(0, {"quick": 4, "thorough": 16})),
+      bounds=B_CAL, split=(0, 64), tier="thorough", timeout=900),
     K("c08::k_date_sub_cal", pre=lambda a: And(date_ok(a), cal_ok(a, 3)),
       claims=[("Date::checked_sub == checked_add of the negated span", date_add_cal_claim(-1))],
-      bounds=B_CAL, split=(0, {"quick": 4, "thorough": 16})),
+      bounds=B_CAL, split=(0, 64), tier="thorough", timeout=900),
 ]
